@@ -8,6 +8,7 @@ import Driver.InviteDrv
 import Driver.KnowDrv
 import Driver.AppMsgDrv
 import Driver.MediaDrv
+import Driver.CrashCoreDrv
 
 def main (args : List String) : IO UInt32 := do
   match args with
@@ -21,4 +22,5 @@ def main (args : List String) : IO UInt32 := do
   | ["know"] => Driver.KnowDrv.main; return 0
   | ["appmsg"] => Driver.AppMsgDrv.main; return 0
   | ["mediaw"] => Driver.MediaDrv.main; return 0
+  | ["crashcore"] => Driver.CrashCoreDrv.main; return 0
   | _ => IO.eprintln "usage: mdkdrv store < ops"; return 2
